@@ -69,15 +69,19 @@ class C20(Check):
         for pair, direction, ops in itertools.product(PAIRS, ["A", "B"], fixed):
             for resolve in (True, False):
                 progs.append({"pair": pair, "direction": direction, "n": 6, "ops": ops, "resolve_live": resolve})
+        for pair, direction in itertools.product(PAIRS, ["A", "B"]):
+            progs.append({"pair": pair, "direction": direction, "n": 6, "link": "creation", "resolve_live": False,
+                          "ops": [{"op": "reopen", "side": "A", "v": [1]}]})
         return progs
 
     def strategy(self, tier):
         return st.fixed_dictionaries({"pair": st.sampled_from(sorted(PAIRS)), "direction": st.sampled_from(["A", "B"]),
                                       "n": st.integers(4, 8), "resolve_live": st.booleans(),
+                                      "link": st.sampled_from(["assignment", "assignment", "creation"]),
                                       "ops": st.lists(op_strategy(), min_size=1, max_size=10)})
 
     # ------------------------------------------------------------------ helpers
-    def build(self, ws, pair, n):
+    def build(self, ws, pair, n, link_at_creation=None):
         from geoh5py import objects
 
         a_cls, b_cls, family, _, _ = PAIRS[pair]
@@ -104,6 +108,13 @@ class C20(Check):
         elif family == "tipper":
             a = getattr(objects, a_cls).create(ws, vertices=verts, name="A")
             b = getattr(objects, b_cls).create(ws, vertices=verts[:1] + [0, 3, 0], name="B")
+        elif link_at_creation == "A":
+            # the link is given as a keyword of the creation (the entity is not on file yet when it is linked)
+            b = getattr(objects, b_cls).create(ws, vertices=verts + [0, 0, 2], name="B")
+            a = getattr(objects, a_cls).create(ws, vertices=verts, name="A", **{PAIRS[pair][3]: b})
+        elif link_at_creation == "B":
+            a = getattr(objects, a_cls).create(ws, vertices=verts, name="A")
+            b = getattr(objects, b_cls).create(ws, vertices=verts + [0, 0, 2], name="B", **{PAIRS[pair][4]: a})
         else:
             a = getattr(objects, a_cls).create(ws, vertices=verts, name="A")
             b = getattr(objects, b_cls).create(ws, vertices=verts + [0, 0, 2], name="B")
@@ -202,13 +213,17 @@ class C20(Check):
         ws2 = None
         nontrivial = p["direction"] == "B"
         try:
+            at_creation = p.get("link") == "creation" and family not in ("large", "dc", "tipper")
             try:
-                a, b = self.build(ws, pair, p["n"])
+                a, b = self.build(ws, pair, p["n"], p["direction"] if at_creation else None)
             except Exception as exc:
-                res.fail(f"C20/build-raises/{pair}//{type(exc).__name__}", f"{type(exc).__name__}: {exc}"[:300])
+                res.fail(f"C20/build-raises/{pair}/{'linked-at-creation' if at_creation else ''}/{type(exc).__name__}",
+                         f"{type(exc).__name__}: {exc}"[:300])
                 return res
             try:
-                if p["direction"] == "A":
+                if at_creation:
+                    res.label("linked-at-creation")
+                elif p["direction"] == "A":
                     setattr(a, a_to_b, b)
                 else:
                     setattr(b, b_to_a, a)
